@@ -224,6 +224,18 @@ func run(c *harness.Ctx, i int) {
 		}
 		want[id] = b
 	}
+	if strings.HasPrefix(leg, "cli-") && rng.Intn(2) == 0 {
+		// many chunks: the command stores them from several workers at once
+		for k := 0; k < 30+rng.Intn(40); k++ {
+			b := make([]byte, 1+rng.Intn(200000))
+			rng.Read(b[:len(b)/(1+rng.Intn(3))]) // partly random, partly zeros
+			id := dsu.Sum(b)
+			if _, dup := want[id]; !dup {
+				order = append(order, id)
+			}
+			want[id] = b
+		}
+	}
 	c.Info("leg=%s uncompressed=%v class=%s chunks=%d", leg, uncompressed, class, len(want))
 	c.LogInfo()
 	store := filepath.Join(dir, "store")
